@@ -994,17 +994,20 @@ func r40DecodeTotal(c *core.Ctx) {
 			if ff.Decl == nil || ff.Decl.Body == nil || ff.Pkg == nil || ff.Pkg != f.Pkg {
 				continue
 			}
-			for _, call := range core.CallsIn(ff.Pkg.TypesInfo, ff.Decl, "strconv.ParseInt", "strconv.ParseUint") {
-				if len(call.Args) != 3 {
-					continue
+			// function literals included (the encoder's sort comparator parses the ids it orders)
+			ast.Inspect(ff.Decl, func(x ast.Node) bool {
+				call, isCall := x.(*ast.CallExpr)
+				if !isCall || len(call.Args) != 3 || !core.IsCallTo(ff.Pkg.TypesInfo, call, "strconv.ParseInt", "strconv.ParseUint") {
+					return true
 				}
 				nbase++
 				if k, isConst := core.ConstInt(ff.Pkg.TypesInfo, call.Args[1]); !isConst || k != 10 {
 					badBase += fmt.Sprintf("%s @%s base %s; ", ff.Name, c.P.Pos(call.Pos()), core.ExprStr(call.Args[1]))
 				}
-			}
+				return true
+			})
 		}
-		c.Check(R, "ids-and-codes-parsed-as-decimal/tms20", f.Decl.Pos(), badBase == "", fmt.Sprintf("%d ParseInt/ParseUint calls in tms20, all with the constant base 10", nbase), "an id or CRS code of a tile matrix set is parsed with a base other than the constant 10 (prefixes, underscores and leading-zero octal are then accepted, two spellings share a key, reader and writer disagree): "+badBase)
+		c.Check(R, "ids-and-codes-parsed-as-decimal/tms20", f.Decl.Pos(), badBase == "" && nbase >= 3, fmt.Sprintf("%d ParseInt/ParseUint calls in tms20, all with the constant base 10", nbase), "an id or CRS code of a tile matrix set is parsed with a base other than the constant 10 (prefixes, underscores and leading-zero octal are then accepted, two spellings share a key, reader and writer disagree): "+badBase)
 	}
 	// (g) decode targets are fresh per element: a value decoded into inside a loop is allocated inside that loop
 	// (UnmarshalJSONFromMap/marshmallow only assign keys that are present, a reused target keeps stale fields
